@@ -5,6 +5,8 @@ Scenario IR
            order), "fs": [{l,id,member (view name|None),ref (label|None)}...] (document order), "perm": seed for the element order}
     ops:   new{l,preset?} add{l,keep (true|false|null = argument omitted),view} add_all{ls,view} link{p,c} view{name}
            save{fmt} reload{fmt} force{l,mode,arg}      mode: as (id of label arg) | below | above | sofa
+           every op may carry "h": the operation is issued through the live handle number h mod (number of handles); handles are
+           the root Cas, every Cas returned by create_view and by get_view (also after a reload). The model has one shared store.
 The documents are written here as text (never by cassis) and parsed back with xml.etree / json only.
 Every FS is a t.A annotation with begin = label, so the traversal order of Cas._find_all_fs is tie-free and is computed by
 `Sim` (views in creation order, members by begin, then breadth-first through `ref`); it is handed to the model as the order
@@ -25,7 +27,7 @@ RULE = (
     "start: Cas() (1 in 5) or a hand-written XMI or JSON document (list or dict form) with 1-3 sofas, ids drawn without "
     "repetition from 1..40 in shuffled element order, the largest id on a sofa in 2 of 5 documents, sofaNums with gaps and swaps "
     "(_InitialView rarely 1), 0-5 FS that are view members or only referenced; then a history of <= 12 operations over new "
-    "(optionally with a preset id), add (keep_id True / False / omitted), add_all, link, create_view (incl. an existing name), "
+    "(optionally with a preset id), every operation issued through a random live handle (root, create_view and get_view results), add (keep_id True / False / omitted), add_all, link, create_view (incl. an existing name), "
     "to_xmi, to_json, reload through either format, forcing an FS onto the id of another / an id below the maximum / above it; "
     "1 document in 8 has no _InitialView sofa; 1 scenario in 40 may force an FS onto a sofa's id (open finding "
     "fs_id_equals_sofa_id). A case is non-trivial when it loads a document, generates an id afterwards and serialises.")
@@ -36,12 +38,15 @@ TRUSTED = [
     "actual order for tie-free scenarios (harness/props/C09.py Sim.order) and the set of reachable FS is computed by the model",
     "correspondence harness: harness/props/C09.py writes the documents by hand, drives the public API, parses output with xml.etree/json",
     "XMI and JSON readers share one model function (load_doc); the format is not an input of the model",
+    "the model is one shared store: that all view handles (Cas._copy) share both generators, the sofas and the views is carried by "
+    "the correspondence only (every operation is issued through a randomly chosen live handle), not by a theorem",
 ]
 ASSUMPTIONS = [
     "loaded documents have pairwise distinct ids and sofaNums and at most one sofa named _InitialView",
     "when the CAS is serialised no reachable FS carries an id set from outside (preset xmiID, fs.xmiID = k) that equals a sofa's id "
     "(open finding fs_id_equals_sofa_id: such an FS is written next to the sofa without an error)",
     "no FS carries xmiID 0 (cas:NULL; such FS are silently not written)",
+    "all handles of one CAS (root, create_view / get_view results) share the id generator and the sofaNum generator",
 ]
 CASES_PER_SHARD = 150
 SHARD_BYTES = 180_000
@@ -297,6 +302,17 @@ def run_impl(cassis, sc):
     objs = _handles(cas)
     first = _snap(cas, objs)
     steps = []
+    # live handles: the root and view handles obtained from it; later every Cas returned by create_view / get_view
+    handles = [cas] + [cas.get_view(n) for n in sim.views]
+
+    def via(op):
+        return handles[op.get("h", 0) % len(handles)]
+
+    def remember(h):
+        if len(handles) < 12:
+            handles.append(h)
+        else:
+            handles[1 + (len(steps) % 11)] = h
 
     def emit(mop, obs, simop=True):
         e = _snap(cas, objs)
@@ -318,7 +334,7 @@ def run_impl(cassis, sc):
                 val = _force_value(pre, cas, objs)
                 if val is not None:
                     kw["xmiID"] = val
-            fs = A(begin=l, end=l + 1, lab=l, sofa=cas.get_view(INIT).get_sofa(), **kw)
+            fs = A(begin=l, end=l + 1, lab=l, sofa=via(op).get_view(INIT).get_sofa(), **kw)
             if kw:
                 # the constructor argument is rendered as OpNewFs followed by OpForceId
                 objs[l] = None
@@ -334,7 +350,8 @@ def run_impl(cassis, sc):
         elif k == "add":
             fs = objs.get(op["l"])
             if fs is not None and op["view"] in sim.views:
-                v = cas.get_view(op["view"])
+                v = via(op).get_view(op["view"])
+                remember(v)
                 if op["keep"] is None:
                     v.add(fs)
                 else:
@@ -345,7 +362,9 @@ def run_impl(cassis, sc):
         elif k == "add_all":
             if op["view"] in sim.views:
                 ls = [l for l in op["ls"] if l in objs]
-                cas.get_view(op["view"]).add_all([objs[l] for l in ls])
+                v = via(op).get_view(op["view"])
+                remember(v)
+                v.add_all([objs[l] for l in ls])
                 emit(["add_all", ls], None)
             else:
                 emit(["nop"], None)
@@ -355,7 +374,7 @@ def run_impl(cassis, sc):
             emit(["link", op["p"], op["c"]], None)
         elif k == "view":
             try:
-                cas.create_view(op["name"])
+                remember(via(op).create_view(op["name"]))
                 emit(["view", op["name"]], None)
             except ValueError:
                 emit(["view", op["name"]], {"err": "EValue"})
@@ -370,7 +389,7 @@ def run_impl(cassis, sc):
         elif k in ("save", "reload"):
             order = sim.order()
             try:
-                text = cas.to_xmi() if op["fmt"] == "xmi" else cas.to_json()
+                text = via(op).to_xmi() if op["fmt"] == "xmi" else via(op).to_json()
             except ValueError:
                 emit([k, order], {"err": "EDupId"})
                 sim.apply(op)
@@ -385,6 +404,7 @@ def run_impl(cassis, sc):
                 cas = load[op["fmt"]](text, typesystem=ts)
                 sim.prune()
                 objs = _handles(cas)
+                handles = [cas] + [cas.get_view(n) for n in sim.views]
             emit([k, order], {"fs": fs_ids, "sofas": sofas})
         else:
             raise AssertionError(k)
@@ -716,6 +736,8 @@ def gen_scenario(rng, tier):
             mode = rng.choice(["as", "as", "as", "below", "above"] + (["sofa", "sofa"] if onsofa else []))
             op = {"op": "force", "l": rng.choice(labels), "mode": mode,
                   "arg": rng.choice(labels) if mode == "as" else rng.randint(0, 5)}
+        if rng.random() < 0.8:
+            op["h"] = rng.randint(0, 40)
         ops.append(op)
         if op["op"] == "reload":
             # which FS survive depends on whether serialising succeeds; both outcomes keep the reachable ones
